@@ -3,11 +3,10 @@
     evaluates the property (Spec.v) on the implementation's observations alone. *)
 From V.Lib Require Import Base.
 From V.Gen Require Import C15Tables.
-From V.C15 Require Import Model Spec.
+From V.C15 Require Import Model Spec Sem QModel QSpec.
 Local Open Scope Z_scope.
 
-Definition sr_eqb (a b : sr) : bool :=
-  (rs a =? rs b) && (re a =? re b) && prio_eqb (rp a) (rp b).
+Definition sr_eqb := QModel.sr_eqb.
 Definition unit_eqb (_ _ : unit) : bool := true.
 Definition obs_eqb : res (list sr) -> res (list sr) -> bool := outcome_eqb (list_eqb sr_eqb) unit_eqb.
 
@@ -19,7 +18,18 @@ Inductive case :=
 (* ScanRange(s..e, FoundNote).truncate_start(h) / truncate_end(h) / split_at(h) *)
 | TruncStart (s e h : Z) (o : option sr)
 | TruncEnd (s e h : Z) (o : option sr)
-| SplitAt (s e h : Z) (o : option (sr * sr)).
+| SplitAt (s e h : Z) (o : option (sr * sr))
+(* part B: one queue operation on the SQLite backend: context and scan_queue rows before, the
+   operation, the rows after (or Err/Panic; the transaction is then rolled back), and
+   WalletRead::suggest_scan_ranges afterwards *)
+| QStep (c : ctx) (pre : list sr) (op : qop) (post : qres (list sr)) (sugg : list sr)
+(* part B: a client loop run to quiescence on real blocks *)
+| QLoop (birthday tip steps rewound : Z) (final sugg : list sr) (fully : option Z).
+
+Definition qerr_eqb (a b : qerr) : bool :=
+  match a, b with DbConstraint, DbConstraint | OtherErr, OtherErr => true | _, _ => false end.
+Definition queue_after (pre : list sr) (post : qres (list sr)) : list sr :=
+  match post with Ok q => q | _ => pre end.
 
 Definition run_case (c : case) : bool :=
   match c with
@@ -28,11 +38,15 @@ Definition run_case (c : case) : bool :=
   | TruncStart s e h o => option_eqb sr_eqb (truncate_start (R s e FoundNote) h) o
   | TruncEnd s e h o => option_eqb sr_eqb (truncate_end (R s e FoundNote) h) o
   | SplitAt s e h o => option_eqb (pair_eqb sr_eqb sr_eqb) (split_at (R s e FoundNote) h) o
+  | QStep c pre op post sugg =>
+      outcome_eqb (list_eqb sr_eqb) qerr_eqb (apply_op c pre op) post &&
+      list_eqb sr_eqb (suggest_scan_ranges (queue_after pre post) Historic) sugg
+  | QLoop b t _ _ final sugg fully =>
+      list_eqb sr_eqb (suggest_scan_ranges final Historic) sugg &&
+      option_eqb Z.eqb (fully_scanned_height final b) fully
   end.
 
 (** *** the property on the observations *)
-Definition row_of (r : sr) : row := (rs r, re r, rp r).
-Definition op_of (o : sr * bool) : row * bool := (row_of (fst o), snd o).
 
 Definition points (init : sr) (ops : list (sr * bool)) (v : list sr) : list Z :=
   flat_map row_points (row_of init :: map (fun o => row_of (fst o)) ops ++ map row_of v).
@@ -42,7 +56,7 @@ Definition points (init : sr) (ops : list (sr * bool)) (v : list sr) : list Z :=
 Definition obs_ok (init : sr) (ops : list (sr * bool)) (k : nat) (o : res (list sr)) : bool :=
   match o with
   | Ok v =>
-      let st := fold_spec (leaf_spec (rs init) (re init) (rp init)) (map op_of (firstn k ops)) in
+      let st := fold_spec (leaf_spec (rs init) (re init) (rp init)) (map op_row (firstn k ops)) in
       canonicalb (map row_of v) && agree_on (points init ops v) (rows_at (map row_of v)) (pm st)
   | _ => false
   end.
@@ -67,6 +81,24 @@ Definition prop_case (c : case) : bool :=
   | SplitAt s e h o =>
       option_eqb (pair_eqb sr_eqb sr_eqb)
         (if (s <? h) && (h <? e) then Some (R s h FoundNote, R h e FoundNote) else None) o
+  | QStep c pre op post sugg =>
+      match post with
+      | Ok q' =>
+          let a := map row_of pre in
+          let b := map row_of q' in
+          step_structure a b &&
+          match op with
+          | OpScan s e _ _ _ => scan_ok a b s e
+          | OpTip _ => tip_ok a b
+          | OpTrim h => trim_ok a b h
+          | _ => true
+          end &&
+          (* suggestions: exactly the rows at or above Historic, highest priority first *)
+          list_eqb sr_eqb (suggest_scan_ranges q' Historic) sugg
+      | _ => false
+      end
+  | QLoop b t steps rewound final sugg fully =>
+      loop_ok b t steps rewound (map row_of final) (map row_of sugg) fully
   end.
 
 (** Known-finding class 1: a sequence that contains an empty range (the tree API panics on
@@ -77,6 +109,9 @@ Definition has_empty (init : sr) (ops : list (sr * bool)) : bool :=
 Definition known_class (c : case) : N :=
   match c with
   | TreeSeq init ops _ => if has_empty init ops then 1%N else 0%N
+  | QStep _ _ (OpRescan rs_ _) _ _ =>
+      (* queue_rescans with an empty range reaches the same tree panic *)
+      if existsb (fun r => fst r =? snd r) rs_ then 1%N else 0%N
   | _ => 0%N
   end.
 
@@ -134,4 +169,20 @@ Definition tag_case (c : case) : N :=
   | TruncStart _ _ _ o => match o with Some _ => 9011 | None => 9012 end%N
   | TruncEnd _ _ _ o => match o with Some _ => 9021 | None => 9022 end%N
   | SplitAt _ _ _ o => match o with Some _ => 9031 | None => 9032 end%N
+  | QStep c pre op post _ =>
+      (match op with OpTip _ => 10000 | OpScan _ _ [] [] [] => 10100 | OpScan _ _ _ _ _ => 10200
+                | OpRescan _ _ => 10300 | OpTrim _ => 10400 | OpPrune _ _ => 10500 end
+       + match post with Ok q' => (if list_eqb sr_eqb q' pre then 0 else 1) | Err _ => 2 | Panic => 3 end
+       + (if connected (map row_of pre) (map row_of (queue_after pre post)) then 0 else 10)
+       + match op with
+         | OpTip _ =>
+             (* which update_chain_tip branch: 20 never scanned, 40 no shard tip, 60 ChainTip, 80 Verify *)
+             match max_scanned c with
+             | None => 20
+             | Some ms => if existsb (fun r => prio_eqb (rp r) Verify) (queue_after pre post) then 80
+                          else if existsb (fun r => prio_eqb (rp r) ChainTip) (queue_after pre post) then 60 else 40
+             end
+         | _ => 0
+         end)%N
+  | QLoop _ _ _ rw _ _ _ => if rw =? 0 then 11000%N else 11001%N
   end.
